@@ -32,7 +32,9 @@ OPS = {"+": np.add, "-": np.subtract, "*": np.multiply, "/": np.divide}
 AGGS = ["sum", "prod", "mean", "median", "stddev", "rank", "size"]
 KINDS = ["converter", "constant", "stock"]
 DOTEXPR = ["M.dot(A+B)", "M.dot((A+B)*2.0)", "(A+B).dot(C)", "A.dot(B+C)", "M.dot(A-B)", "M.dot(A*B)", "V - A.dot(B)", "V + A.dot(B)", "W - A.dot(B)",
-           "A.dot(B) - V", "V * A.dot(B)", "M.dot(N+N)", "(M+M).dot(A)"]
+           "A.dot(B) - V", "V * A.dot(B)", "M.dot(N+N)", "(M+M).dot(A)",
+           # a matrix combined element-wise with a vector-valued dot product: numpy broadcasts (2,2) with (2,) along the last axis and rejects (2,3) with (2,)
+           "W - M.dot(A)", "W + M.dot(A)", "W * M.dot(A)", "W / M.dot(A)", "X - M.dot(A)", "X + M.dot(A)", "X * M.dot(A)", "X / M.dot(A)", "M.dot(A) - X", "V - M.dot(A)", "X - X.dot(C3)"]
 WRAPPERS = ["abs", "max0", "min9", "pow2", "gt0", "if", "round", "neg", "plus", "times", "sqrtabs"]
 
 
@@ -247,11 +249,16 @@ def run_case(case):
             A, B, C = values([2], d, 21), values([2], d, 22), values([2], d, 23)
             M, N = values([2, 2], d, 24), values([2, 2], d, 25)
             V, W = values([2], d, 26), values([2, 2], d, 27)
+            X3, C3 = values([2, 3], d, 28), values([3], d, 29)
             try:
-                expected = eval(case["tmpl"].replace(".dot(", "@(").replace("A@(", "A@(").replace("M@(", "M@(").replace(").dot", ")@"), {}, dict(A=A, B=B, C=C, M=M, N=N, V=V, W=W))
+                expected = eval(case["tmpl"].replace(".dot(", "@(").replace("A@(", "A@(").replace("M@(", "M@(").replace(").dot", ")@"), {}, dict(A=A, B=B, C=C, M=M, N=N, V=V, W=W, X=X3, C3=C3))
+                expected = np.asarray(expected, dtype=float)
+            except ValueError as e:
+                if "broadcast" not in str(e) and "shapes" not in str(e) and "mismatch" not in str(e):
+                    return dict(verdict="inconclusive", witness=dict(harness="reference", error=repr(e)))
+                expected = None        # numpy rejects the shapes: the DSL must reject them, too
             except Exception as e:
                 return dict(verdict="inconclusive", witness=dict(harness="reference", error=repr(e)))
-            expected = np.asarray(expected, dtype=float)
             key = ("dot_expr", case["tmpl"])
         elif form == "agg_variant":
             a = case["agg"]
@@ -349,7 +356,8 @@ def run_case(case):
             expr = wrap_dsl(case["wrapper"], pyop[case["op"]](a, b))
         elif form == "dot_expr":
             env = dict(A=make_el(m, "converter", "A", A), B=make_el(m, "converter", "B", B), C=make_el(m, "converter", "C", C),
-                       M=make_el(m, "converter", "M", M), N=make_el(m, "converter", "N", N), V=make_el(m, "converter", "V", V), W=make_el(m, "converter", "W", W))
+                       M=make_el(m, "converter", "M", M), N=make_el(m, "converter", "N", N), V=make_el(m, "converter", "V", V), W=make_el(m, "converter", "W", W),
+                       X=make_el(m, "converter", "X", X3), C3=make_el(m, "converter", "C3", C3))
             expr = eval(case["tmpl"], {}, env)
         elif form == "agg_variant":
             v = case["variant"]
